@@ -54,6 +54,9 @@ def goenv():
     return env
 
 
+SOCKETACE_LANG = "go1.21"
+
+
 def write_modfile(workdir):
     """alternate go.mod: /repo/go.mod + rapid, go 1.18 (generics for rapid, still < 1.22 loopvar change)."""
     src = open(os.path.join(REPO, "go.mod")).read()
@@ -107,6 +110,11 @@ def build(cid, spec, workdir, fuzz=None):
     os.makedirs(os.path.join(VERIF, "bin"), exist_ok=True)
     out = os.path.join(VERIF, "bin", cid + (".fuzz" if fuzz else "") + ".test")
     cmd = ["go", "test", "-vet=off", "-tags", "verif", "-modfile=" + mod, "-overlay=" + ov, "-c", "-o", out]
+    # rapid v1.3.0's own go.mod says "go 1.23", which makes -mod=mod raise the go line of the alternate modfile and
+    # with it the language version of socketace's packages; /repo/go.mod says go 1.14, i.e. one shared variable per
+    # loop (the per-iteration semantics start at go1.22). The module's packages are therefore compiled with
+    # -lang=go1.21: the newest version that still has the loop semantics of the real build (and has generics for rapid)
+    cmd.append("-gcflags=github.com/bokysan/socketace/v2/...=-lang=" + SOCKETACE_LANG)
     if spec.get("race"):
         cmd.append("-race")
     if fuzz:
